@@ -73,7 +73,8 @@ fn classify(e: &Expression, out: &mut Outcome) {
 
 /// The simplifier documents that a folded constant with |c| < 1e-10 is treated as 0 (and within
 /// 1e-10 of 1 as 1). A constant subexpression that is non-zero but that small — in practice
-/// rounding noise such as sin(pi) = 1.2e-16 — makes the threshold decide the case, which the
+/// rounding noise such as sin(pi) = 1.2e-16, or the reciprocal of a huge constant such as
+/// (1+2.5i)^exp(pi) ≈ 1e10 — makes the threshold decide the case, which the
 /// property's "up to floating-point rounding" does not cover; such inputs are skipped and counted.
 fn has_near_threshold_constant(e: &Expression) -> bool {
     let env = Env::default();
@@ -86,7 +87,8 @@ fn has_near_threshold_constant(e: &Expression) -> bool {
             Some(c) if eval::finite(c) => {
                 let a = c.norm();
                 let b = (c - 1.0).norm();
-                (a > 0.0 && a < 1e-7) || (b > 0.0 && b < 1e-7)
+                // a huge constant counts too: its reciprocal is what the rewrites fold next
+                (a > 0.0 && (a < 1e-7 || a > 1e7)) || (b > 0.0 && b < 1e-7)
             }
             _ => false,
         }
